@@ -784,6 +784,8 @@ def main(argv=None):
                    "callees are deterministic functions of their arguments and the memory reachable from them (so equal call sequences give equal effects)",
                    "the hand review of specs/c19_map.json, c19_layout.json, c19_constants.json against include/*/*.h and include/*/api.hpp", "z3"]
     chk.assumptions = ["pointer arguments of a C call designate distinct objects (the wrappers add no aliasing of their own: each forwards its pointers unchanged)"]
+    # statelessness (no call leaves anything behind in a global or static) is a premise of every per-call obligation: C20's IR obligations
+    chk.include("C20")
     chk.run()
     chk.finish()
 
